@@ -119,7 +119,7 @@ LitCombos(ia, ib) ==
 SpaceLaw ==
   /\ \A cl \in UniClasses : \E gi \in UniIdx : UniAll[gi - NGrid].cls = cl
   /\ LitIdx \subseteq GridIdx /\ LitTgtIdx \subseteq LitIdx /\ LitAltPartners \subseteq LitIdx /\ UniPartnerIdx \subseteq GridIdx
-  /\ {AllSeq[gi] : gi \in LitTgtIdx \cap LitAltPartners} \supseteq {N("0"), N("-0")}
+  /\ {N("0"), N("-0")} \subseteq {AllSeq[gi] : gi \in LitTgtIdx \cap LitAltPartners}
   /\ \A kd \in PrimKinds : \E gi \in LitIdx : AllSeq[gi].k = kd
   /\ \A gi \in LitIdx : AllSeq[gi].k = "num" /\ DFromW(AllSeq[gi].w).c \in {"zero", "fin"} => Len(Lits(gi)) >= 2
 
